@@ -55,6 +55,9 @@ TEMPLATES = {
     # them fully - feasibility is still decided by the currents asked about, whatever the EVSEs could deliver
     # a de-energised branch: a constraint whose limit is exactly 0 A (only the tolerance is admissible on it)
     "zero": {"angles": [30, -90, 150], "cons": [("off", {"PS-A": 1, "PS-B": 1}, 0.0), ("lc", {"PS-C": 1, "PS-B": -1}, 20.0)]},
+    # constraints written the way the bundled JPL site writes them: a sum that starts from an EMPTY Current (a phase
+    # without EVSEs on that panel), and a difference whose subtrahend is empty
+    "emptyterm": {"angles": [30, -90, 150], "via": "empty", "cons": [("la", {"PS-A": 1, "PS-C": -1}, 30.3), ("lb", {"PS-B": 1, "PS-A": -1}, 25.7), ("pod", {"PS-B": 1, "PS-C": 1}, 40.5)]},
     "rated": {"angles": [30, -90, 150], "max_rate": 32, "cons": [("gen", {"PS-A": 1, "PS-B": 1, "PS-C": 1}, 100.0), ("d", {"PS-A": 1, "PS-C": -1}, 70.0)]},
 }
 # quick uses the first two registration orders, thorough all six
@@ -84,8 +87,11 @@ def build(tname, order, tol):
         net.register_evse(EVSE(st, max_rate=t.get("max_rate", 1e6)), 208, t["angles"][ST.index(st)])
     with warnings.catch_warnings():
         warnings.simplefilter("ignore")
-        for name, coefs, lim in t["cons"]:
-            net.add_constraint(Current(dict(coefs)), lim, name=name)
+        for k, (name, coefs, lim) in enumerate(t["cons"]):
+            cur = Current(dict(coefs))
+            if t.get("via") == "empty":
+                cur = (Current([]) + cur) if k % 2 == 0 else (cur - Current([]))
+            net.add_constraint(cur, lim, name=name)
     sim = Simulator(net, BaseAlgorithm(), EventQueue(), S.START, verbose=False)
     return net, Interface(sim)
 
